@@ -76,8 +76,9 @@ Variable omit : bool.
 Variable compile : bytes -> N -> option (list decl).
 Variable vmstep : bytes -> N -> N -> list effect.
 
+(* if !m.Hidden { if r.omitMetricSource { m.Source = "" } ... } *)
 Definition strip (d : decl) : decl :=
-  if omit then mkdecl (d_name d) (d_kind d) (d_type d) (d_keys d) [] (d_hidden d) else d.
+  if omit && negb (d_hidden d) then mkdecl (d_name d) (d_kind d) (d_type d) (d_keys d) [] (d_hidden d) else d.
 
 (* for _, m := range v.Metrics { if !m.Hidden { if err := r.ms.Add(m); err != nil { return err } } } *)
 Fixpoint register (idx : index) (h : pheap) (p : bytes) (ms : list (N * decl))
